@@ -96,6 +96,8 @@ add("C16", MC, "clone / bind / wait_on / checkpoint applied to arrays (blockwise
     "deviation-bounded exhaustive interleaving exploration of the real scheduler with execution-log oracle")
 add("C08", EX, "EVERY legacy expression of depth <= 2 (3) over keys (str and tuple), literals, key-like strings protected by literal/quote, nested calls, lists and dicts is placed in a graph and evaluated by dask.get, threaded.get and convert_legacy_graph+execute_graph against a reference interpreter of the stated legacy semantics; reported dependencies are compared with the syntactically referenced keys and a pickle round trip must keep dependencies and value; the same grammar builds Task/List/Dict/Alias/DataNode graphs directly.", "5/C08", GRAPH_NOTE,
     "bounded exhaustive enumeration of a term grammar against a reference interpreter")
+add("C10", EX, "(a) _fuse_annotations on ALL ordered pairs of the 324 annotation dicts of the stated alphabet against the reference merge; (b) EVERY sequence of <= 3 blockwise steps (elementwise, transpose, second root, broadcast, new axis, concatenate=True reduction, contraction) x every chunking with numblocks <= 2x2 x root kinds, annotated per step: optimize_blockwise, fuse_roots and the array optimiser must compute the NumPy values and a fully fused stack must carry the reference-merged annotations; (c) HighLevelGraph.cull for EVERY non-empty subset of output blocks and Blockwise._cull_dependencies vs the materialised tasks.", "5/C10", ARR_NOTE,
+    "bounded exhaustive enumeration of layer stacks x chunkings x output-block subsets with differential evaluation")
 
 
 def build():
